@@ -126,6 +126,9 @@ def apply_op(obj, op):
     return obj.bump()
   if op == 'count':
     return obj.count
+  if op == 'sortnone':
+    r = obj.sort()
+    return -7 if r is None else r          # Remote.tla: NoneVal
   if op == 'item0':
     return obj[0]
   if op == 'count11':
@@ -192,7 +195,8 @@ class Remote:
     if isinstance(h, self.mods.courier_utils.RemoteIterator):
       h = h.iterator       # other operations go to the reference itself
     r = apply_op(h, op)
-    return ('value', r.result_())
+    v = r.result_()
+    return ('value', -7 if v is None else v)          # Remote.tla: NoneVal
 
 
 def enter_shutting(server):
